@@ -261,6 +261,12 @@ func (x *Exec) generate1(walk, keep func(name string) bool) []*FuncReport {
 			// refactoring): nothing to verify; the callers are verified against whatever they call now
 			if !x.isIfaceContract(con) && !strings.HasPrefix(con.Key, "callback:") && keep(name) {
 				reports = append(reports, &FuncReport{Key: name, Err: "contract for a function that does not exist (skipped)"})
+				// ... unless it is part of the exported API: an entry point the properties speak about cannot be inlined away, and
+				// one whose receiver changed (pointer to value) no longer does what its contract says to the caller's object
+				if base := con.Key[strings.LastIndex(con.Key, ".")+1:]; base != "" && base[0] >= 'A' && base[0] <= 'Z' && !strings.Contains(base, "$") {
+					x.obls = append(x.obls, &Obligation{Func: name, Kind: "subset", Name: "exists", Goal: "false", Synt: true,
+						Src: "the exported function " + con.Key + " under contract does not exist any more (removed, renamed, or its receiver changed)"})
+				}
 			}
 			continue
 		}
